@@ -1111,7 +1111,7 @@ func indexString(v ssa.Value) string {
 	if p := PathOf(v); p != "" {
 		return p
 	}
-	return "?" + v.Name()
+	return exprDepth(v, 6)
 }
 
 // ResultAt resolves result k of a return: when results are spilled to a local
